@@ -1,19 +1,24 @@
 #!/bin/bash
-# tools_seed_confirm.sh <id>...: confirm a seeded change myself in its scratch worktree /tmp/seed-<id>:
-#   builds; reference set passes WITH the change; demonstration FAILS with and PASSES without it.
+# tools_seed_confirm.sh <seed dir name>...: confirm a seeded change in a fresh scratch worktree:
+#   it builds; the pinned reference set passes WITH the change; the demonstration FAILS with and PASSES without it.
+# The agents' demo commands refer to /tmp/seed-<id> (round 1) or /tmp/seed2-<id> (round 2, directories r2-<id>).
 export GOFLAGS=-mod=mod GOPROXY=off GOSUMDB=off GOTOOLCHAIN=local
-for id in "$@"; do
-  W=/tmp/seed-$id; S=/verif/seeded/$id
-  export TMPDIR=/tmp/seed-$id-demo/tmp; mkdir -p $TMPDIR
-  git -C $W checkout -q -- . || { echo "$id: no worktree"; continue; }
-  git -C $W apply $S/patch.diff || { echo "$id: patch does not apply"; continue; }
-  (cd $W && go build ./...) || { echo "$id: BUILD FAILS"; continue; }
+for d in "$@"; do
+  S=/verif/seeded/$d
+  case $d in r2-*) id=${d#r2-}; W=/tmp/seed2-$id; D=/tmp/seed2-$id-demo ;; *) id=$d; W=/tmp/seed-$id; D=/tmp/seed-$id-demo ;; esac
+  git -C /repo worktree remove --force $W >/dev/null 2>&1; rm -rf $W $D
+  git -C /repo worktree add --detach $W HEAD >/dev/null 2>&1 || { echo "$d: cannot create worktree"; continue; }
+  mkdir -p $D/tmp; cp $S/demo_test.go $S/patch.diff $D/
+  export TMPDIR=$D/tmp
+  git -C $W apply $S/patch.diff || { echo "$d: patch does not apply"; continue; }
+  (cd $W && go build ./...) || { echo "$d: BUILD FAILS"; continue; }
   ref=$( (cd $W/pkg/fs && go test -mod=mod -vet=off -count=1 -timeout 20m -run '^(TestFile_Name|TestFileInfo_.*|TestNewFileInfo.*)$' . 2>&1 | tail -1) )
   cmd=$(python3 -c "import json,html;print(html.unescape(json.load(open('$S/meta.json'))['demo_cmd']))")
-  with=$(bash -c "$cmd" > $TMPDIR/with.log 2>&1; echo $?)
+  bash -c "$cmd" > $D/with.log 2>&1
+  with=$(grep -a -c -E "^(--- FAIL|FAIL)" $D/with.log)
   git -C $W apply -R $S/patch.diff
-  without=$(bash -c "$cmd" > $TMPDIR/without.log 2>&1; echo $?)
-  git -C $W apply $S/patch.diff
-  echo "$id: reference-set='$ref' demo-with-change-exit=$with demo-without-change-exit=$without"
-  rm -rf $TMPDIR/stfs-test-* 2>/dev/null
+  bash -c "$cmd" > $D/without.log 2>&1
+  without=$(grep -a -c -E "^(--- FAIL|FAIL)" $D/without.log); okw=$(grep -a -c -E "^ok" $D/without.log)
+  echo "$d: reference-set='$ref' demo-with-change: FAIL-lines=$with; demo-without-change: FAIL-lines=$without ok-lines=$okw"
+  git -C /repo worktree remove --force $W >/dev/null 2>&1; rm -rf $W $D
 done
